@@ -1,14 +1,14 @@
 //! Verification hooks. Only compiled with `--cfg unimock_verif`; never part of a normal build.
 //!
 //! * [DynClause]: a clause list whose length is known only at run time.
-//! * [AtomicUsize], [LockScope], [yield_point]: scheduling points for a controlled scheduler.
+//! * [AtomicUsize], [StdMutex], [SpinMutex], [OnceCell], [yield_point]: scheduling points for a
+//!   controlled scheduler (drop-in replacements of the synchronisation types the runtime uses).
 //! * [snapshot], [instance]: read-only views of the internal state.
 #![allow(missing_docs)]
 
 use core::any::TypeId;
 use core::sync::atomic::Ordering;
 
-use once_cell::sync::OnceCell;
 
 use crate::alloc::{Box, String, ToString, Vec};
 use crate::call_pattern::PatIndex;
@@ -75,7 +75,7 @@ pub enum Op {
     CellInsert,
 }
 
-static HOOK: OnceCell<fn(Op, usize)> = OnceCell::new();
+static HOOK: once_cell::sync::OnceCell<fn(Op, usize)> = once_cell::sync::OnceCell::new();
 
 /// Install the process-wide yield hook. Returns false if one was already installed.
 pub fn set_hook(hook: fn(Op, usize)) -> bool {
@@ -225,6 +225,113 @@ impl From<usize> for AtomicUsize {
         Self::new(value)
     }
 }
+
+/// Drop-in replacement for `once_cell::sync::OnceCell`: every shared-reference operation announces
+/// a scheduling point first (`get`/`wait`: [Op::Load]; `set`/`try_insert`/`get_or_init`/
+/// `get_or_try_init`: [Op::CellInsert]). Operations that need `&mut self` or ownership are not
+/// shared-memory operations and announce nothing. Because the *type* is replaced, code that starts
+/// using a different operation of the cell is instrumented too.
+pub struct OnceCell<T>(once_cell::sync::OnceCell<T>);
+
+impl<T> OnceCell<T> {
+    pub const fn new() -> Self {
+        Self(once_cell::sync::OnceCell::new())
+    }
+
+    pub const fn with_value(value: T) -> Self {
+        Self(once_cell::sync::OnceCell::with_value(value))
+    }
+
+    fn addr(&self) -> usize {
+        self as *const Self as usize
+    }
+
+    pub fn get(&self) -> Option<&T> {
+        yield_point(Op::Load, self.addr());
+        self.0.get()
+    }
+
+    #[cfg(feature = "std")]
+    pub fn wait(&self) -> &T {
+        yield_point(Op::Load, self.addr());
+        self.0.wait()
+    }
+
+    pub fn get_mut(&mut self) -> Option<&mut T> {
+        self.0.get_mut()
+    }
+
+    pub fn set(&self, value: T) -> Result<(), T> {
+        yield_point(Op::CellInsert, self.addr());
+        self.0.set(value)
+    }
+
+    pub fn try_insert(&self, value: T) -> Result<&T, (&T, T)> {
+        yield_point(Op::CellInsert, self.addr());
+        self.0.try_insert(value)
+    }
+
+    pub fn get_or_init<F>(&self, f: F) -> &T
+    where
+        F: FnOnce() -> T,
+    {
+        yield_point(Op::CellInsert, self.addr());
+        self.0.get_or_init(f)
+    }
+
+    pub fn get_or_try_init<F, E>(&self, f: F) -> Result<&T, E>
+    where
+        F: FnOnce() -> Result<T, E>,
+    {
+        yield_point(Op::CellInsert, self.addr());
+        self.0.get_or_try_init(f)
+    }
+
+    pub fn take(&mut self) -> Option<T> {
+        self.0.take()
+    }
+
+    pub fn into_inner(self) -> Option<T> {
+        self.0.into_inner()
+    }
+
+    /// Read without announcing a scheduling point (for the read-only views below).
+    pub(crate) fn peek(&self) -> Option<&T> {
+        self.0.get()
+    }
+}
+
+impl<T> Default for OnceCell<T> {
+    fn default() -> Self {
+        Self::new()
+    }
+}
+
+impl<T: core::fmt::Debug> core::fmt::Debug for OnceCell<T> {
+    fn fmt(&self, f: &mut core::fmt::Formatter<'_>) -> core::fmt::Result {
+        self.0.fmt(f)
+    }
+}
+
+impl<T: Clone> Clone for OnceCell<T> {
+    fn clone(&self) -> Self {
+        Self(self.0.clone())
+    }
+}
+
+impl<T> From<T> for OnceCell<T> {
+    fn from(value: T) -> Self {
+        Self(once_cell::sync::OnceCell::from(value))
+    }
+}
+
+impl<T: PartialEq> PartialEq for OnceCell<T> {
+    fn eq(&self, other: &Self) -> bool {
+        self.0 == other.0
+    }
+}
+
+impl<T: Eq> Eq for OnceCell<T> {}
 
 /// Drop-in replacement for `std::sync::Mutex` that announces acquisition attempts, the moment the
 /// lock is held (so that other threads can be scheduled inside the critical section) and the
@@ -492,7 +599,7 @@ pub fn instance(unimock: &Unimock) -> InstanceSnap {
         torn_down: unimock.torn_down,
         verify_in_drop: unimock.verify_in_drop,
         strong_count: crate::alloc::Arc::strong_count(&unimock.shared_state),
-        has_delegator: unimock.default_impl_delegator_cell.get().is_some(),
+        has_delegator: unimock.default_impl_delegator_cell.peek().is_some(),
         value_chain_len: unimock.value_chain.verif_len(),
     }
 }
